@@ -57,7 +57,7 @@ where
     pub(super) sent_closing: Option<StreamId>,
     // Has a GOAWAY frame been received? If so, this is PushId the last the remote will accept.
     pub(super) recv_closing: Option<PushId>,
-    // The id of the last stream received by this connection.
+    // The highest id of the streams accepted by this connection.
     pub(super) last_accepted_stream: Option<StreamId>,
 }
 
@@ -158,9 +158,11 @@ where
     /// See [connection shutdown](https://www.rfc-editor.org/rfc/rfc9114.html#connection-shutdown) for more information.
     #[cfg_attr(feature = "tracing", instrument(skip_all, level = "trace"))]
     pub async fn shutdown(&mut self, max_requests: usize) -> Result<(), ConnectionError> {
+        // The identifier sent is the first request which will not be accepted: it has to be
+        // greater than every request already handed out, and leaves room for `max_requests` more
         let max_id = self
             .last_accepted_stream
-            .map(|id| id + max_requests)
+            .map(|id| id + max_requests.saturating_add(1))
             .unwrap_or(StreamId::FIRST_REQUEST);
 
         self.inner.shutdown(&mut self.sent_closing, max_id).await
@@ -200,7 +202,7 @@ where
                     // incoming requests not belonging to the grace interval. It's possible that
                     // some acceptable request streams arrive after rejected requests.
                     if let Some(max_id) = self.sent_closing {
-                        if s.send_id() > max_id {
+                        if s.send_id() >= max_id {
                             s.stop_sending(Code::H3_REQUEST_REJECTED.value());
                             s.reset(Code::H3_REQUEST_REJECTED.value());
                             if self.poll_requests_completion(cx).is_ready() {
@@ -209,7 +211,11 @@ where
                             continue;
                         }
                     }
-                    self.last_accepted_stream = Some(s.send_id());
+                    // Streams can arrive out of order, remember the highest one
+                    self.last_accepted_stream = Some(match self.last_accepted_stream {
+                        Some(last) if last > s.send_id() => last,
+                        _ => s.send_id(),
+                    });
                     self.ongoing_streams.insert(s.send_id());
                     Poll::Ready(Ok(Some(s)))
                 }
